@@ -39,6 +39,12 @@ CONSTRUCTS = {
     "loop": "{x} for (i = 0; i < 2; i++) {{ RxV = RxV + i; }}",
     "call": "{x} RxV = clz32(RxV);",
     "cancel": "{x} if (PvV & 1) {{ STORE_SLOT_CANCELLED(pkt, slot); }}",
+    "pchain0": "{x} P0 = RxV = RsV;",
+    "pchain1": "{x} PdV = RxV = RtV;",
+    "pchain2": "{x} P0 = P1 = RsV;",
+    "pchain3": "{x} RxV = P2 = RsV;",
+    "pcompound": "{x} P3 |= RsV;",
+    "pparen": "{x} RxV = (P1 = RsV) + 1;",
     "plain": "{x} RxV = RxV + RtV;",
     "usr": "{x} set_usr_field(bundle, HEX_REG_FIELD_USR_OVF, 1);",
 }
